@@ -29,7 +29,7 @@ struct DtxSim {
   double gap_eG = 0, gap_eP = 0; long gap_n = 0;
   double post_eG = 0, post_eR = 0; long post_n = 0; int64_t post_from48 = -1;
   bool drop_next = false; int64_t lost_recent48 = -1, last_tiny48 = -1, last_loss48 = -1;
-  bool ever_nonsilent = false, ever_loud = false, run_started_before_any_sound = false;
+  bool ever_nonsilent = false, ever_loud = false, run_started_before_any_sound = false, analysis_heard_sound = false;
   explicit DtxSim(Run &r) : run(r) {}
 
   void op_encnew(const Op &op) {
@@ -98,6 +98,21 @@ struct DtxSim {
     }
     if (loud) loud_run48 += d48; else loud_run48 = 0;
     if (!silent) ever_nonsilent = true;
+    // what the tonality analysis has heard: it runs (complexity >= 7 / 10 and Fs >= 16 kHz, otherwise it is reset on every frame) on the
+    // mono downmix, and while it has only been fed digital silence its verdict stays "not valid"
+    {
+      double m2 = 0; size_t nfr = pcm.size() / (size_t)L.ch;
+      for (size_t i = 0; i < nfr; i++) { double m = 0; for (int c = 0; c < L.ch; c++) m += pcm[i * (size_t)L.ch + (size_t)c]; m /= L.ch; m2 += m * m; }
+      double mid_rms = sqrt(m2 / (double)std::max<size_t>(1, nfr));
+      bool analysis_on =
+#ifdef OPSIM_FIXED
+          m_complexity >= 10 && L.fs >= 16000;
+#else
+          m_complexity >= 7 && L.fs >= 16000;
+#endif
+      if (!analysis_on) analysis_heard_sound = false;
+      else if (loud && mid_rms >= 0.5 * frame_rms) analysis_heard_sound = true;
+    }
     if (loud) ever_loud = true;
     prev_loud = loud;
     Bytes pkt, rpkt;
@@ -133,11 +148,11 @@ struct DtxSim {
         // ---- O3: the in-DTX query is true on every DTX packet
         if (in_dtx != 1) REPORT(run, prop, "in_dtx_false_on_dtx_packet", "ret=%d in_dtx=%d t=%.0fms frame_ms=%.1f cplx=%d fs=%d", ret, in_dtx, t0 / 48.0, d48 / 48.0, m_complexity, L.fs);
         // ---- O2: run bound in every configuration
-        if (tiny_run_pkts == 0) { run_started_before_any_sound = !ever_loud; run_dmax48 = 0; }
+        if (tiny_run_pkts == 0) { run_started_before_any_sound = !analysis_heard_sound; run_dmax48 = 0; }
         tiny_run48 += d48; tiny_run_pkts++; run_dmax48 = std::max(run_dmax48, d48);
         if (tiny_run48 >= 400 * MS + run_dmax48) {
-          // known mechanism: nothing audible has been fed yet (digital silence, or input far below the activity threshold), so the tonality
-          // analysis has never become valid; whenever the input flips between exact silence and not-quite-silence the DTX decision is
+          // known mechanism: the tonality analysis has heard nothing audible since it was last (re)started (digital silence, input far
+          // below the activity threshold, or stereo content that cancels in its mono downmix), so its verdict is not valid or not active; whenever the input flips between exact silence and not-quite-silence the DTX decision is
           // handed over between the Opus-level counter and SILK's own, unsynchronised one, and the run is not refreshed in time
           bool handover = run_started_before_any_sound && analysis_cfg;
           REPORT(run, prop, handover ? "dtx_run_too_long_initial_silence_handover" : "dtx_run_too_long", "run of %d tiny packets lasts %.1f ms (longest frame %.1f ms) cplx=%d fs=%d", tiny_run_pkts, tiny_run48 / 48.0, run_dmax48 / 48.0, m_complexity, L.fs);
@@ -192,7 +207,12 @@ struct DtxSim {
       // long-term predictor state differs from the encoder's does not reconverge on a stationary periodic signal (a healthy IIR
       // decoder can even ring up for a while), so a level comparison is only meaningful where the predictor memory is flushed.
       bool flushable = toc_mode(pkt[0]) == 2 || burst_fam == SRC_NOISE;
-      if (m_dtx && loud && !tiny && flushable && loud_run48 >= 500 * MS && (last_tiny48 < 0 || t0 >= last_tiny48 + 500 * MS) && !pr.empty() && !lost && lost_recent48 < 0) {
+      // ... and only while the DTX-off twin codes the frame with the same mode, bandwidth and channel count: with DTX on and the SILK
+      // detector in charge the encoder deliberately prefers SILK-only ("use SILK in order to make use of its DTX"), e.g. medium-band
+      // SILK against the twin's full-band CELT - white noise then decodes at half the level because three quarters of its band are gone
+      bool same_coding = rret > 0 && !rpkt.empty() && (rpkt[0] & 0xFC) == (pkt[0] & 0xFC);
+      if (same_coding) run.count("resume_same_coding_frames");
+      if (m_dtx && loud && !tiny && flushable && same_coding && loud_run48 >= 500 * MS && (last_tiny48 < 0 || t0 >= last_tiny48 + 500 * MS) && !pr.empty() && !lost && lost_recent48 < 0) {
         post_eG += energy(pg); post_eR += energy(pr); post_n += (long)pg.size();
         if (run.verbose) printf("   post: rmsG=%.5f rmsR=%.5f ret=%d rret=%d in_rms=%.5f\n", sqrt(energy(pg) / pg.size()), sqrt(energy(pr) / pr.size()), ret, rret, frame_rms);
       }
